@@ -931,14 +931,21 @@ func componentCaseKind(c *Case, force string) (*WF, string) {
 		n := itemCounts[t.Choose(simrt.StGen, 6, 0)]
 		var vals []string
 		var b strings.Builder
+		// white space is part of a line: empty lines, leading blanks, a trailing tab.
+		// Such values cannot appear in a path, so the consumer is then a Go function
+		// that reads the parameter with task.Param and names its output after a file
+		ws := kind == "fileparams" && n > 0 && t.Choose(simrt.StGen, 3, 0) == 1
 		for i := 0; i < n; i++ {
 			v := fmt.Sprintf("line%d", i)
+			if ws {
+				v = []string{"", "  indented" + fmt.Sprint(i), "trailing tab" + fmt.Sprint(i) + "\t", "in ner " + fmt.Sprint(i), "plain" + fmt.Sprint(i)}[t.Choose(simrt.StGen, 5, 0)]
+			}
 			vals = append(vals, v)
 			b.WriteString(v + "\n")
 		}
 		content := b.String()
-		if n > 0 && t.Choose(simrt.StGen, 3, 0) == 1 {
-			content = content[:len(content)-1] // last line without a terminating newline
+		if n > 0 && t.Choose(simrt.StGen, 3, 0) == 1 && vals[n-1] != "" {
+			content = content[:len(content)-1] // last line without a terminating newline (an empty last line would vanish with it)
 		}
 		w.Sources["params.txt"] = content
 		nd := Node{Name: "rd", Kind: KFileToParams, FilePath: "params.txt", Vals: vals}
@@ -957,6 +964,16 @@ func componentCaseKind(c *Case, force string) (*WF, string) {
 			}
 		}
 		ri := addNode(w, nd)
+		if ws {
+			c.Probe("params-file-with-white-space")
+			e := Edge{ri, port}
+			fsrc := srcNode(w, "files", n, "")
+			addNode(w, Node{Name: "use", Kind: KProc, Cores: 1, Custom: 1, HiddenParams: true,
+				Ins:    []InSpec{{Name: "a", From: []Edge{{fsrc, "out"}}}},
+				Params: []ParamSpec{{Name: "x", From: &e}},
+				Outs:   []OutSpec{{Name: "o0", Pattern: "{i:a}.use.o0"}}})
+			return w, kind
+		}
 		paramConsumer(w, "use", []Edge{{ri, port}}, []string{"x"})
 	default: // sources
 		n := itemCounts[t.Choose(simrt.StGen, 7, 0)]
